@@ -2,6 +2,7 @@ SPECIFICATION Spec
 CONSTANTS
   MaxOps = 6
   MaxWl = 4
+  FaultKinds = {"fail", "cancel"}
   FaultAt = {0, 3, 5, 7, 9, 11, 13, 16, 20}
 CONSTRAINT Emit
 CHECK_DEADLOCK FALSE
